@@ -55,6 +55,12 @@
 (* reader is done rather than when the WaitGroup drains" (non-vacuity        *)
 (* self-test of CloseAfterDrain / EofComplete); SendSelectsDone = FALSE is   *)
 (* "a send that no longer selects on ctx.Done" (self-test of AllDone).       *)
+(* FastPath = TRUE is the mutation "ChanSend.Write first looks whether the   *)
+(* buffer has room and, if so, sends without a select": with one sender that *)
+(* is harmless, with several it is check-then-act - two workers see the last *)
+(* free slot, one gets it, the other is parked in a plain send that ignores  *)
+(* its context (self-test of AllDone for several senders on one buffered     *)
+(* pipe: ParallelBuffer).                                                    *)
 (***************************************************************************)
 EXTENDS Integers, Sequences, FiniteSets, Bags, BagsExt, TLC
 
@@ -65,7 +71,8 @@ CONSTANTS MaxN,            \* input sizes 0..MaxN are explored; items are 1..n i
           OutCap,          \* capacity of the output channel
           CloserSeesCtx,   \* BOOLEAN: the closer's wg.Wait also returns when ctx i is done
           CloseOn,         \* "wg" (the code) | "reader" (mutation)
-          SendSelectsDone  \* TRUE (the code) | FALSE (mutation)
+          SendSelectsDone, \* TRUE (the code) | FALSE (mutation)
+          FastPath         \* FALSE (the code) | TRUE (mutation): room check, then a plain send
 
 None    == 0
 
@@ -159,9 +166,12 @@ Cancel == /\ ~done["p"]
           /\ UNCHANGED <<n, k, src, rpc, rhold, wpc, whold, cpc, wg, setup, nsetup, pipeClosed, outClosed, outbuf,
                          upc, delivered, ueof, ictx, iclosed, ran>>
 
+\* where a worker's Write starts: in the select (the code), or at the room check of the fast path
+SendPc == IF FastPath /\ OutCap > 0 THEN "chk" ELSE "send"
+
 \* the user function of worker w returns
 CbReturn(w) == /\ wpc[w] = "cb"
-               /\ wpc' = [wpc EXCEPT ![w] = IF HasOut THEN "send" ELSE "recv"]
+               /\ wpc' = [wpc EXCEPT ![w] = IF HasOut THEN SendPc ELSE "recv"]
                /\ whold' = IF HasOut THEN whold ELSE [whold EXCEPT ![w] = None]
                /\ UNCHANGED <<n, k, src, rpc, rhold, cpc, wg, setup, nsetup, pipeClosed, outClosed, outbuf,
                               upc, delivered, ueof, ictx, iclosed, done, stopped, ran>>
@@ -191,7 +201,7 @@ RRead == /\ rpc = "read"
 PipeHandoff(w) == /\ rpc = "send" /\ wpc[w] = "recv" /\ ~pipeClosed
                   /\ whold' = [whold EXCEPT ![w] = IF HasCb \/ HasOut THEN rhold ELSE None]
                   /\ rhold' = None /\ rpc' = "read"
-                  /\ wpc' = [wpc EXCEPT ![w] = IF HasCb THEN "cb" ELSE "send"]
+                  /\ wpc' = [wpc EXCEPT ![w] = IF HasCb THEN "cb" ELSE SendPc]
                   \* a worker group hands the item to the user function here
                   /\ delivered' = IF HasOut THEN delivered ELSE Append(delivered, rhold)
                   /\ UNCHANGED <<n, k, src, cpc, wg, setup, nsetup, pipeClosed, outClosed, outbuf, upc, ueof,
@@ -235,6 +245,20 @@ WSendEnd(w) == /\ wpc[w] = "send" /\ ((done["w"] /\ SendSelectsDone) \/ outClose
                /\ UNCHANGED <<n, k, src, rpc, rhold, cpc, wg, setup, nsetup, pipeClosed, outClosed, outbuf, upc, delivered,
                               ueof, ictx, iclosed, done, stopped, ran>>
 
+\* mutation FastPath: `if len(ch) < cap(ch)` - the worker commits to a plain send when it SEES room
+WChk(w) == /\ wpc[w] = "chk"
+           /\ wpc' = [wpc EXCEPT ![w] = IF Len(outbuf) < OutCap THEN "plain" ELSE "send"]
+           /\ UNCHANGED <<n, k, src, rpc, rhold, whold, cpc, wg, setup, nsetup, pipeClosed, outClosed, outbuf, upc, delivered,
+                          ueof, ictx, iclosed, done, stopped, ran>>
+\* `ch <- it`: succeeds when there IS room; no ctx.Done() arm; on a closed channel the recovered panic
+WPlain(w) == /\ wpc[w] = "plain"
+             /\ \/ /\ ~outClosed /\ Len(outbuf) < OutCap
+                   /\ outbuf' = Append(outbuf, whold[w]) /\ wpc' = [wpc EXCEPT ![w] = "recv"]
+                \/ /\ outClosed /\ wpc' = [wpc EXCEPT ![w] = "exit"] /\ UNCHANGED outbuf
+             /\ whold' = [whold EXCEPT ![w] = None]
+             /\ UNCHANGED <<n, k, src, rpc, rhold, cpc, wg, setup, nsetup, pipeClosed, outClosed, upc, delivered,
+                            ueof, ictx, iclosed, done, stopped, ran>>
+
 \* PostHook(wg.Done)
 WExit(w) == /\ wpc[w] = "exit"
             /\ wg' = wg - 1 /\ wpc' = [wpc EXCEPT ![w] = "done"]
@@ -275,6 +299,7 @@ RunReturn == /\ upc = "wait" /\ wg = 0
 
 Internal == \/ RRead \/ RSelDone \/ RClose \/ CWait \/ CCancel \/ CClose \/ URecvBuf \/ URecvEnd \/ RunReturn
             \/ \E w \in Workers : WStart(w) \/ PipeHandoff(w) \/ WRecvEnd(w) \/ WSend(w) \/ WSendEnd(w) \/ WExit(w)
+                                  \/ WChk(w) \/ WPlain(w)
 
 Next == Internal \/ External
 Spec == Init /\ [][Next]_vars /\ WF_vars(Internal)
@@ -287,7 +312,7 @@ LiveSpec == Init /\ [][LiveNext]_vars /\ WF_vars(Internal) /\ WF_vars(Read) /\ W
 (* ---------------------------------------------------------------- Properties *)
 
 TypeOK == /\ rpc \in {"idle", "read", "send", "close", "done"}
-          /\ \A w \in Workers : wpc[w] \in {"idle", "start", "recv", "cb", "send", "exit", "done"}
+          /\ \A w \in Workers : wpc[w] \in {"idle", "start", "recv", "cb", "send", "chk", "plain", "exit", "done"}
           /\ cpc \in {"idle", "wait", "cancel", "close", "done"}
           /\ wg \in 0..k /\ upc \in {"idle", "recv", "wait"} /\ Len(outbuf) <= OutCap
           /\ ictx \in {"none", "live", "noop"}
